@@ -1,3 +1,4 @@
+#![allow(dead_code)]
 //! drv <component> replay <cases.ndjson> --out verdict.json
 //! drv <component> record --seed S --tier quick|thorough --out trace.ndjson
 mod util;
